@@ -235,6 +235,9 @@ mut("identifier_length_capped_at_255", ["C08", "C09", "C13", "C06"], [(TOK, """ 
 mut("parse_error_text_capped_at_4096", ["C09"], [(ERRS, """    let content = src[start.0..end.0].to_string();""", """    let content = src[start.0..end.0].chars().take(4096).collect::<String>();""")],
     "the source text reported with a parse error is cut after 4096 characters: needs an offending attribute longer than that")
 
+mut("oset_insert_appends_in_large_sets", ["C18"], [(OSET, """            Err(i) => self.raw.insert(i, item),""", """            Err(i) if self.raw.len() < 32 => self.raw.insert(i, item),
+            Err(_) => self.raw.push(item),""")], "insert appends instead of inserting in place once the set has 32 elements: needs sets of > 32 elements")
+
 def main():
     a = sys.argv[1:]
     if not a or a[0] == "list":
